@@ -55,7 +55,7 @@ Proof.
   intros e fl. exists (keys_msg e). unfold has_msg. split; [apply in_expand_head; cbn; auto|].
   cbn [keys_msg m_name m_psm m_oneof m_fields]. rewrite cn_keys. repeat split.
   apply (Forall2_map_r _ (fun k => of_ufield (k_def k))). intros k _.
-  unfold key_name, key_primary, of_ufield. destruct (uf_kind (k_def k)) as [pt j|n|n|n|p fo te|tn j|i|i];
+  unfold key_name, key_primary, of_ufield. destruct (uf_kind (k_def k)) as [pt j|n|n|n|p fo te|tn j|i|i|sfs|sfs|os];
     cbn [f_json f_primary f_required]; repeat split; try discriminate; auto.
   - intros ->. reflexivity.
   - intros ->. apply orb_true_r.
@@ -66,7 +66,7 @@ Proof.
   intros e fl. exists (data_msg e). unfold has_msg. split; [apply in_expand_head; cbn; auto|].
   cbn [data_msg m_name m_psm m_oneof m_fields]. rewrite cn_data. repeat split.
   apply Forall2_map_r. intros u _. unfold of_ufield.
-  destruct (uf_kind u) as [pt j|n|n|n|p fo te|tn j|i|i]; cbn [f_json f_required]; split; try reflexivity; auto.
+  destruct (uf_kind u) as [pt j|n|n|n|p fo te|tn j|i|i|sfs|sfs|os]; cbn [f_json f_required]; split; try reflexivity; auto.
   intros ->. reflexivity.
 Qed.
 
@@ -103,23 +103,27 @@ Proof.
   - cbn [number_from nth_error]. rewrite (IH (N.succ i) p k s H). f_equal. f_equal. lia.
 Qed.
 
-Lemma status_values_shape : forall p l,
-  exists z, status_values p l = (z, 0) :: number_from 1 p (declared_after_zero l)
+Lemma status_values_shape : forall p l n0,
+  exists z, status_values_n p l n0 = (z, 0) :: number_from 1 p (declared_after_zero_n l n0)
             /\ has_suffix (bs "UNSPECIFIED") z = true /\ has_prefix p z = true.
 Proof.
-  intros p [|s r]; cbn [status_values declared_after_zero].
+  intros p [|s r] n0; cbn [status_values_n declared_after_zero_n].
   - eexists. split; [reflexivity|]. split; [apply has_suffix_self|apply has_prefix_app].
-  - destruct (has_suffix (bs "UNSPECIFIED") s) eqn:E.
-    + eexists. split; [reflexivity|]. split; [|apply svn_prefix].
-      unfold status_value_name. destruct (has_prefix p s); [exact E|now apply has_suffix_app].
+  - destruct (has_suffix (bs "UNSPECIFIED") s) eqn:E; cbn [andb].
+    + destruct (n0 =? 0).
+      * eexists. split; [reflexivity|]. split; [|apply svn_prefix].
+        unfold status_value_name. destruct (has_prefix p s); [exact E|now apply has_suffix_app].
+      * eexists. split; [reflexivity|]. split; [apply has_suffix_self|apply has_prefix_app].
     + eexists. split; [reflexivity|]. split; [apply has_suffix_self|apply has_prefix_app].
 Qed.
 
 Theorem spec_status_holds : forall e fl, spec_status e (expand_with e fl).
 Proof.
-  intros e fl. exists (status_values (status_prefix e) (e_status e)). split.
+  intros e fl. exists (entity_status_values e). split.
   - unfold has_enum. apply in_expand_head. unfold status_enum. rewrite cn_status. cbn. auto.
-  - destruct (status_values_shape (status_prefix e) (e_status e)) as [z [-> [Hs Hp]]].
+  - unfold entity_status_values.
+    destruct (status_values_shape (status_prefix e) (e_status e) (first_status_number e)) as [z [-> [Hs Hp]]].
+    change (sp_first_number e) with (first_status_number e).
     split; [exists z; auto|]. split.
     + cbn [length]. now rewrite number_from_length.
     + intros k s Hk. exists (status_value_name (status_prefix e) s). cbn [nth_error].
@@ -554,6 +558,14 @@ Proof.
     rewrite join_app by discriminate. reflexivity.
 Qed.
 
+Lemma ufield_wf_parts : forall u, ufield_wf u = true ->
+  name_ok (uf_name u) = true /\ inline_wf u = true
+  /\ (uf_optional u && (uf_required u || match uf_kind u with KKey p _ _ => p | _ => false end)) = false.
+Proof.
+  intros u H. unfold ufield_wf in H. apply andb_true_iff in H. destruct H as [H H3].
+  apply andb_true_iff in H. destruct H as [H1 H2]. apply negb_true_iff in H3. auto.
+Qed.
+
 (* ---- what [in_quantifier] gives ---------------------------------------------------------------------------- *)
 Lemma in_quantifier_parts : forall e, in_quantifier e = true ->
   name_ok (e_name e) = true /\ pkg_ok (e_pkg e) = true
@@ -648,7 +660,7 @@ Proof.
   intros e H. destruct (in_quantifier_parts e H) as [_ [_ [_ [_ [Hk _]]]]].
   unfold fields_wf in Hk. apply andb_true_iff in Hk. destruct Hk as [Hk _].
   apply Forall_forall. intros u Hu. apply get_keys_incl in Hu. rewrite forallb_forall in Hk.
-  specialize (Hk u Hu). unfold ufield_wf in Hk. apply andb_true_iff in Hk. destruct Hk as [Hk _].
+  specialize (Hk u Hu). destruct (ufield_wf_parts u Hk) as [Hk' _]. clear Hk. rename Hk' into Hk.
   unfold name_ok in Hk. apply andb_true_iff in Hk. destruct Hk as [Hi _].
   unfold key_seg_ok. destruct (ident_no_colon_slash _ Hi) as [_ ->].
   destruct (ident_no_colon_slash _ (to_snake_ident _ Hi)) as [_ ->]. reflexivity.
@@ -793,22 +805,50 @@ Proof.
       intros x Hx Hin. cbn in Hin. destruct Hin as [<-|[]]. apply (Hnot (bs "event")); cbn; auto.
 Qed.
 
+Lemma NoDup_app_l : forall {A} (a b : list A), NoDup (a ++ b) -> NoDup a.
+Proof.
+  induction a as [|x a IH]; intros b H; [constructor|]. inversion H as [|? ? Hn Hd]; subst. constructor.
+  - intros Hin. apply Hn. apply in_or_app. now left.
+  - now apply (IH b).
+Qed.
+
 Lemma in_quantifier_keys_nodup : forall e, in_quantifier e = true -> NoDup (map key_name (e_keys e)).
 Proof.
   intros e H. destruct (in_quantifier_parts e H) as [_ [_ [_ [_ [Hk _]]]]].
   unfold fields_wf in Hk. apply andb_true_iff in Hk. destruct Hk as [_ Hk].
-  apply nodup_bytes_NoDup in Hk. rewrite <- (map_map uf_name to_snake) in Hk. apply NoDup_map_inv in Hk.
+  apply nodup_bytes_NoDup in Hk. apply NoDup_app_l in Hk. unfold sp_field_scope in Hk. apply NoDup_app_l in Hk.
+  rewrite <- (map_map uf_name to_snake) in Hk. apply NoDup_map_inv in Hk.
   change (map key_name (e_keys e)) with (map (fun k => uf_name (k_def k)) (e_keys e)).
   rewrite <- (map_map k_def uf_name). exact Hk.
 Qed.
 
-Theorem keys_clear_holds : forall e, in_quantifier e = true -> reserved_free e = true -> keys_clear e.
+Lemma reserved_free_parts : forall e, reserved_free e = true ->
+  forallb (fun k => negb (key_in_path k && existsb (bytes_eqb (to_snake (key_name k))) [bs "page"; bs "query"]))
+          (e_keys e) = true
+  /\ forallb (fun s => forallb (fun u => negb (bytes_eqb (to_snake (uf_name u)) (bs "upsert"))) (s_fields s))
+             (e_summaries e) = true
+  /\ forallb (fun ev => negb (bytes_eqb (to_snake (to_lower_camel (ev_name ev))) (bs "type"))) (e_events e) = true
+  /\ forallb (fun s => match s with
+                       | SOneof _ opts => forallb (fun u => negb (bytes_eqb (to_snake (uf_name u)) (bs "type"))) opts
+                       | _ => true end) (e_schemas e) = true
+  /\ bytes_eqb (response_name e) (bs "page") = false
+  /\ (match e_query e with Some q => q_events_in_get q | None => false end
+       && bytes_eqb (response_name e) (bs "events")) = false
+  /\ forallb (fun u => match uf_kind u with
+                        | KInlineOneof opts => forallb (fun o => negb (bytes_eqb (to_snake (sf_name o)) (bs "type"))) opts
+                        | _ => true end) (all_ufields e) = true.
 Proof.
-  intros e Hq Hr. split; [now apply in_quantifier_keys_nodup|]. intros k Hk Hin.
-  unfold reserved_free in Hr.
-  repeat match type of Hr with
-         | (_ && _) = true => apply andb_true_iff in Hr; let H' := fresh "R" in destruct Hr as [Hr H']
+  intros e H. unfold reserved_free in H.
+  repeat match type of H with
+         | (_ && _) = true => apply andb_true_iff in H; let H' := fresh "R" in destruct H as [H H']
          end.
+  apply negb_true_iff in R0, R. repeat split; assumption.
+Qed.
+
+Theorem keys_clear_holds : forall e, in_quantifier e = true -> state_event_names_free e = true -> keys_clear e.
+Proof.
+  intros e Hq R1. split; [now apply in_quantifier_keys_nodup|]. intros k Hk Hin.
+  unfold state_event_names_free in R1.
   rewrite forallb_forall in R1. specialize (R1 k Hk). apply negb_true_iff in R1.
   apply existsb_bytes_In in Hin. congruence.
 Qed.
@@ -841,36 +881,52 @@ Theorem event_type_refuted :
   in_quantifier type_event_sample = true /\ compile type_event_sample = Err "symbol already defined".
 Proof. split; vm_compute; reflexivity. Qed.
 
-(* a key named status: compiles, and State has two JSON properties "status" *)
-Theorem state_property_clash_refuted :
-  exists cs m, in_quantifier (mk_min "status") = true /\ compile (mk_min "status") = Ok cs
+(* ---- names that are NOT reserved: inside the quantifier, accepted, every clause holds ---------------------
+   (known-findings audit 2.6 / 2.7 / 2.8).  What these declarations do to OTHER properties' clauses is
+   stated as a plain fact about the model, not as a refutation of C17. *)
+(* a key named status (metadata, data): State then has two JSON properties of that name - C18's
+   "property names are unique within each object", not a clause of C17 *)
+Lemma state_property_names_witness :
+  exists cs m, compile (mk_min "status") = Ok cs
     /\ has_msg cs 0 m /\ m_name m = sp_name (mk_min "status") "State"
-    /\ json_props cs m = [bs "metadata"; bs "status"; bs "data"; bs "status"]
-    /\ ~ NoDup (json_props cs m).
+    /\ json_props cs m = [bs "metadata"; bs "status"; bs "data"; bs "status"].
 Proof.
-  eexists. eexists. split; [vm_compute; reflexivity|]. split; [vm_compute; reflexivity|].
-  split; [unfold has_msg; do 3 right; left; reflexivity|]. split; [vm_compute; reflexivity|].
-  split; [vm_compute; reflexivity|]. intros H. vm_compute in H.
-  inversion H as [|? ? H1 H2]; subst. inversion H2 as [|? ? H3 _]; subst. apply H3. right. left. reflexivity.
+  eexists. eexists. split; [vm_compute; reflexivity|].
+  split; [unfold has_msg; do 3 right; left; reflexivity|]. split; vm_compute; reflexivity.
 Qed.
 
-Theorem event_property_clash_refuted :
-  exists cs m, in_quantifier (mk_min "event") = true /\ compile (mk_min "event") = Ok cs
+Lemma event_property_names_witness :
+  exists cs m, compile (mk_min "event") = Ok cs
     /\ has_msg cs 0 m /\ m_name m = sp_name (mk_min "event") "Event"
     /\ json_props cs m = [bs "metadata"; bs "event"; bs "event"].
 Proof.
-  eexists. eexists. split; [vm_compute; reflexivity|]. split; [vm_compute; reflexivity|].
+  eexists. eexists. split; [vm_compute; reflexivity|].
   split; [unfold has_msg; do 5 right; left; reflexivity|]. split; vm_compute; reflexivity.
 Qed.
 
-(* an optional array compiles, and the descriptor set is one protodesc.NewFiles rejects *)
+Lemma property_named_keys_in_scope :
+  forallb (fun n => in_quantifier (mk_min n) && reserved_free (mk_min n))
+          ["status"; "metadata"; "data"; "event"; "keys"; "events"]%string = true.
+Proof. vm_compute. reflexivity. Qed.
+
+(* an optional array: a plain repeated field since fix d536c9b *)
 Definition optional_array_sample : entity :=
   mkE (bs "foo.v1") (bs "Foo") [] [mkK (mkU (bs "fooId") (KKey true None None) false false) false]
       [mkU (bs "tags") (KArray (IScalar 9 (bs "string"))) false true] [bs "ACTIVE"] [] [] [] None [].
-Theorem optional_repeated_refuted :
-  exists cs, in_quantifier optional_array_sample = true /\ reserved_free optional_array_sample = true
-    /\ compile optional_array_sample = Ok cs /\ client_accepts cs = false.
-Proof. eexists. repeat split; vm_compute; reflexivity. Qed.
+Lemma optional_array_in_scope :
+  in_quantifier optional_array_sample = true /\ reserved_free optional_array_sample = true
+  /\ exists cs, compile optional_array_sample = Ok cs /\ client_accepts cs = true.
+Proof. split; [vm_compute; reflexivity|]. split; [vm_compute; reflexivity|]. eexists. split; vm_compute; reflexivity. Qed.
+
+(* two statuses that differ only in case: linked by the compiler (C17 asks for no more); that
+   protodesc.NewFiles then rejects the package is C16's clause - the model predicts it for the tie *)
+Definition status_case_sample : entity :=
+  mkE (bs "foo.v1") (bs "Foo") [] [mkK (mkU (bs "fooId") (KKey true None None) false false) false]
+      [] [bs "Active"; bs "ACTIVE"] [] [] [] None [].
+Lemma status_case_in_scope :
+  in_quantifier status_case_sample = true /\ reserved_free status_case_sample = true
+  /\ exists cs, compile status_case_sample = Ok cs /\ client_accepts cs = false.
+Proof. split; [vm_compute; reflexivity|]. split; [vm_compute; reflexivity|]. eexists. split; vm_compute; reflexivity. Qed.
 
 Theorem full_refuted : ~ C17_full_statement_def.
 Proof.
@@ -879,19 +935,23 @@ Proof.
 Qed.
 
 (* everything the statement promises about the OUTPUT holds whenever the compiler accepts; the
-   path clause for declarations in the quantifier; State/Event are objects when no key uses one
-   of their property names.  Missing for the full statement: acceptance itself
-   (in_quantifier e -> reserved_free e -> compile e succeeds), which is checked on every run by
-   the correspondence + oracle only. *)
+   path clause for declarations in the quantifier.  (Acceptance itself: EntityAcceptProofs.v.) *)
 Theorem full_partial : forall e cs, compile e = Ok cs ->
-  C17_spec_core e cs
-  /\ (in_quantifier e = true -> spec_query_paths e cs)
-  /\ (in_quantifier e = true -> reserved_free e = true -> spec_objects e cs).
+  C17_spec_core e cs /\ (in_quantifier e = true -> spec_query_paths e cs).
 Proof.
   intros e cs H. split; [now apply spec_core_holds|].
-  destruct (compile_inv e cs H) as [_ [_ [Hl [fl [_ [-> _]]]]]]. split.
-  - intros Hq. now apply spec_query_paths_holds.
-  - intros Hq Hr. apply spec_objects_holds; [assumption|now apply keys_clear_holds].
+  destruct (compile_inv e cs H) as [_ [_ [Hl [fl [_ [-> _]]]]]].
+  intros Hq. now apply spec_query_paths_holds.
+Qed.
+
+(* not a clause of C17 (see EntitySpec.spec_objects): State / Event have distinct JSON properties
+   when no key is named like one of their own *)
+Theorem objects_distinct_props : forall e cs, compile e = Ok cs ->
+  in_quantifier e = true -> state_event_names_free e = true -> spec_objects e cs.
+Proof.
+  intros e cs H Hq Hr.
+  destruct (compile_inv e cs H) as [_ [_ [Hl [fl [_ [-> _]]]]]].
+  apply spec_objects_holds; [assumption|now apply keys_clear_holds].
 Qed.
 
 (* the sample of props/C17.v is in the quantifier, free of reserved names, and compiles *)
